@@ -26,3 +26,28 @@ s = re.sub(r"<!-- BEGIN GENERATED:seeds -->.*?<!-- END GENERATED:seeds -->",
            "<!-- BEGIN GENERATED:seeds -->\n" + table + "\n<!-- END GENERATED:seeds -->", s, flags=re.S)
 open(p, 'w').write(s)
 print(len(rows), "rows")
+
+# ---- per-property table from the registry + the last evidence
+import sys
+sys.path.insert(0, os.path.join(V, 'harness'))
+import registry
+prow = []
+for pid in sorted(registry.PROPS):
+    P = registry.PROPS[pid]
+    try:
+        ev = json.load(open(os.path.join(V, 'evidence', pid + '.json')))
+        cov = ev['coverage']
+        nthm = len(cov.get('theorems', []))
+        evals = cov.get('evaluations')
+        sites = len(cov.get('translator_sites', []))
+    except Exception:
+        nthm = evals = sites = '?'
+    partial = 'partial' if 'PARTIAL' in P['level_text'] else 'full'
+    prow.append(f"| {pid} | `{P['module'].replace('JadeModel.', '')}` | {nthm} | {sites} | {', '.join(P['suites'])} | {evals} | {partial} |")
+ptable = ("| property | theorem module | theorems audited | translator sites | suites (correspondence + oracle) | evaluations (last run) | statement carried by theorems |\n"
+          "|---|---|---|---|---|---|---|\n" + "\n".join(prow))
+s = open(p).read()
+s = re.sub(r"<!-- BEGIN GENERATED:props -->.*?<!-- END GENERATED:props -->",
+           "<!-- BEGIN GENERATED:props -->\n" + ptable + "\n<!-- END GENERATED:props -->", s, flags=re.S)
+open(p, 'w').write(s)
+print(len(prow), "properties")
